@@ -4,10 +4,47 @@ use super::common::*;
 use crate::core::*;
 use crate::gen::*;
 use crate::oracle::*;
+use super::c10::{self, ScriptCase};
 use proptest::prelude::*;
+use serde::{Deserialize, Serialize};
+use similar::algorithms::{Capture, Compact, DiffHook, Replace};
 use similar::DiffOp;
 
 pub struct C09;
+
+/// a diff computed by one of the algorithms, or an arbitrary valid script (C10's generator)
+/// pushed through Compact + Replace
+#[derive(Clone, Debug, Serialize, Deserialize)]
+#[serde(untagged)]
+pub enum Case {
+    Seq(SeqCase),
+    Script(ScriptCase),
+}
+
+fn check_script(c: &ScriptCase, obs: &mut Obs) -> Verdict {
+    if let Err(m) = c10::script_is_valid(c) {
+        panic!("generator self-test failed: {} for {:?}", m, c);
+    }
+    let (old, new) = (&c.old, &c.new);
+    let eq = |i: usize, j: usize| old[i] == new[j];
+    let out = guard(|| {
+        let mut h = Compact::new(Replace::new(Capture::new()), &old[..], &new[..]);
+        c10::drive(&mut h, &c.script).unwrap();
+        h.finish().unwrap();
+        h.into_inner().into_inner().into_ops()
+    });
+    let ops = match out {
+        Ok(o) => o,
+        Err(p) => return Verdict::Fail(format!("Compact<Replace<Capture>> on script {:?}: {}", c.script, p)),
+    };
+    if let Err(m) = normal_form(&ops, &eq) {
+        return Verdict::Fail(format!("script {:?} for {:?} -> {:?} through Compact<Replace<Capture>> gives {:?}: {}", c.script, old, new, ops, m));
+    }
+    obs.nontrivial = ops.len() >= 3;
+    obs.class("arbitrary valid script through Compact+Replace");
+    obs.class_if(ops.iter().any(|o| matches!(o, DiffOp::Replace { .. })), "has Replace");
+    Verdict::Pass
+}
 
 fn check_case(c: &SeqCase, obs: &mut Obs) -> Verdict {
     let k = match c.k {
@@ -45,15 +82,23 @@ fn check_case(c: &SeqCase, obs: &mut Obs) -> Verdict {
     Verdict::Pass
 }
 
-fn strat(tier: Tier) -> BoxedStrategy<SeqCase> {
+fn strat(tier: Tier) -> BoxedStrategy<Case> {
     prop_oneof![
-        400 => seq_case_k(tier.pick(100, 300), true, 3, true),
-        2 => big_seq_case(tier),
+        400 => seq_case_k(tier.pick(100, 300), true, 3, true).prop_map(Case::Seq),
+        2 => big_seq_case(tier).prop_map(Case::Seq),
+        100 => c10::strat(tier).prop_map(|mut c| {
+            c.stack = 2;
+            Case::Script(c)
+        }),
     ]
     .boxed()
 }
 
-fn enum_small(tier: Tier, f: &mut dyn FnMut(SeqCase) -> bool) {
+fn enum_scripts(tier: Tier, f: &mut dyn FnMut(Case) -> bool) {
+    c10::enum_scripts(tier, &mut |c: ScriptCase| if c.stack == 2 { f(Case::Script(c)) } else { true });
+}
+
+fn enum_small(tier: Tier, f: &mut dyn FnMut(Case) -> bool) {
     let seqs = all_seqs(2, tier.pick(6, 7));
     for a in &seqs {
         for b in &seqs {
@@ -61,7 +106,7 @@ fn enum_small(tier: Tier, f: &mut dyn FnMut(SeqCase) -> bool) {
                 for k in [None, Some(0u64), Some(1)] {
                     let mut c = SeqCase::full(alg, a.clone(), b.clone());
                     c.k = k;
-                    if !f(c) {
+                    if !f(Case::Seq(c)) {
                         return;
                     }
                 }
@@ -71,15 +116,15 @@ fn enum_small(tier: Tier, f: &mut dyn FnMut(SeqCase) -> bool) {
 }
 
 impl Prop for C09 {
-    type Case = SeqCase;
+    type Case = Case;
     const ID: &'static str = "C09";
     fn rule() -> String {
-        "cases = (algorithm, old, new, ranges, capture entry point, deadline none | virtual clock expiring at probe k); enumeration of all pairs over {0,1} (repeats next to every edit) x {none, k=0, k=1} plus proptest mixture, plus (1 case in ~200 each) sequences of 1200-2500/5000 items with 300-900 scattered edits (thousands of raw ops) and single edits next to periodic runs of 2200-5200/9000 items (an insertion slides thousands of positions). Oracle: Equal/non-Equal strictly alternate, no empty op or empty Replace side, every Insert followed by an Equal has new[ins.new_index] != old[eq.old_index]. Non-trivial = at least 3 ops; distinct = distinct serialized case. (C10 additionally pushes arbitrary valid scripts through Compact+Replace and applies the same normal-form oracle.)".into()
+        "cases = (algorithm, old, new, ranges, capture entry point, deadline none | virtual clock expiring at probe k); enumeration of all pairs over {0,1} (repeats next to every edit) x {none, k=0, k=1} plus proptest mixture, plus (1 case in ~200 each) sequences of 1200-2500/5000 items with 300-900 scattered edits (thousands of raw ops) and single edits next to periodic runs of 2200-5200/9000 items (an insertion slides thousands of positions). Oracle: Equal/non-Equal strictly alternate, no empty op or empty Replace side, every Insert followed by an Equal has new[ins.new_index] != old[eq.old_index]. Non-trivial = at least 3 ops; distinct = distinct serialized case. 1 random case in 5 and a second enumeration stage are ARBITRARY VALID SCRIPTS (C10's generator: run splitting, insert-before-delete, non-minimal scripts; all scripts of all pairs over {0,1} up to length 3) pushed through Compact<Replace<Capture>> and judged by the same normal-form oracle.".into()
     }
     fn assumptions() -> Vec<String> {
         vec!["expiry placed by the virtual clock hook".into()]
     }
-    fn stages(tier: Tier) -> Vec<Stage<SeqCase>> {
+    fn stages(tier: Tier) -> Vec<Stage<Case>> {
         vec![
             Stage {
                 name: "enum-small",
@@ -89,10 +134,21 @@ impl Prop for C09 {
                     gen: enum_small,
                 },
             },
-            Stage { name: "random", kind: StageKind::Random { strategy: strat, cases: tier.pick(1_000_000, 6_000_000) } },
+            Stage {
+                name: "enum-all-scripts",
+                kind: StageKind::Enumerate {
+                    scope: "all valid scripts (every run length, every interleaving) of all (old,new) over {0,1} with lengths <= 3, pushed through Compact<Replace<Capture>>".into(),
+                    exhaustive: true,
+                    gen: enum_scripts,
+                },
+            },
+            Stage { name: "random", kind: StageKind::Random { strategy: strat, cases: tier.pick(1_200_000, 7_000_000) } },
         ]
     }
-    fn check(case: &SeqCase, obs: &mut Obs) -> Verdict {
-        check_case(case, obs)
+    fn check(case: &Case, obs: &mut Obs) -> Verdict {
+        match case {
+            Case::Seq(c) => check_case(c, obs),
+            Case::Script(c) => check_script(c, obs),
+        }
     }
 }
